@@ -99,7 +99,25 @@ def r1_operator_tables(ctx):
         if lab is False and any(P.un(p) in ("node.keywords", "len(node.keywords) > 0", "len(node.keywords) != 0") for p in parts):
             return True
         parts = e.values if isinstance(e, ast.BoolOp) and isinstance(e.op, ast.And) else [e]
-        return lab is True and any(P.un(p) in ("not node.keywords", "len(node.keywords) == 0") for p in parts)
+        if lab is True and any(P.un(p) in ("not node.keywords", "len(node.keywords) == 0") for p in parts):
+            return True
+        # the same test kept in a module-level predicate: `if not plain(node): return node` / `if plain(node):`
+        # where plain(p) answers False whenever p.keywords is non-empty
+        neg = isinstance(e, ast.UnaryOp) and isinstance(e.op, ast.Not)
+        c = e.operand if neg else e
+        if isinstance(c, ast.Call) and isinstance(c.func, ast.Name) and len(c.args) == 1 and P.un(c.args[0]) == "node" and lab is (not neg):
+            h = P.find_def(ctx.py(OPT), c.func.id)
+            if h is not None and isinstance(h, P.FUNC) and len(h.args.args) == 1:
+                p0 = h.args.args[0].arg
+                first = h.body[1] if h.body and isinstance(h.body[0], ast.Expr) and isinstance(getattr(h.body[0], "value", None), ast.Constant) and len(h.body) > 1 else (h.body[0] if h.body else None)
+                if isinstance(first, ast.If) and P.un(first.test) == f"{p0}.keywords" and len(first.body) == 1 and isinstance(first.body[0], ast.Return) \
+                        and isinstance(first.body[0].value, ast.Constant) and first.body[0].value.value is False:
+                    return True
+                if isinstance(first, ast.Return) and first.value is not None:
+                    t2 = P.un(first.value)
+                    if t2.startswith(f"not ({p0}.keywords or ") or t2.startswith(f"not {p0}.keywords and "):
+                        return True
+        return False
 
     built = [r for r in _returns(fn) if isinstance(r.value, ast.Call) and P.un(r.value.func).startswith("ast.")]
     bad = [r for r in built if not all(g.edge_dominated(nd, kw_guard) for nd in g.nodes if nd.ast is r)]
@@ -119,6 +137,21 @@ def r2_operand_order(ctx):
     swapped construction is allowed only where both operands are known to be names or constants."""
     fn = _opt_fn(ctx)
     g = None
+
+    def operands(r):
+        """(first, second): the names the call's two operands were unpacked into, for the return `r`:
+        the nearest `<a>, <b> = node.args` before it in its own block or an enclosing one."""
+        node = r
+        while node is not None and node is not fn:
+            blk = P.block_of(node) or []
+            before = [st for st in blk if getattr(st, "lineno", 0) < r.lineno]
+            for st in reversed(before):
+                if isinstance(st, ast.Assign) and P.un(st.value) == "node.args" and isinstance(st.targets[0], ast.Tuple) and len(st.targets[0].elts) == 2 \
+                        and all(isinstance(e, ast.Name) for e in st.targets[0].elts):
+                    return st.targets[0].elts[0].id, st.targets[0].elts[1].id
+            node = P.parent(node)
+        return None
+
     for r in _returns(fn):
         v = r.value
         if not (isinstance(v, ast.Call) and P.un(v.func).startswith("ast.")):
@@ -126,45 +159,65 @@ def r2_operand_order(ctx):
         cls = P.un(v.func).split(".")[-1]
         args = [P.un(a) for a in v.args]
         kw = {k.arg: P.un(k.value) for k in v.keywords}
-        inst = f"{OPT}::{P.un(v)}"
+        ops = operands(r)
+        first, second = ops if ops else ("?", "?")
+        inst = f"{OPT}::{P.un(v)}".replace(first, "<1st>").replace(second, "<2nd>") if ops else f"{OPT}::{P.un(v)}"
         if cls == "BinOp":
-            ok = args[:1] == ["arg1"] and args[2:3] == ["arg2"]
+            ok = ops is not None and args[:1] == [first] and args[2:3] == [second]
         elif cls == "UnaryOp":
             ok = True
         elif cls == "Compare":
-            ok = args[0] == "arg1" and args[2] == "[arg2]"
-            if not ok and args[0] == "arg2" and args[2] == "[arg1]":
+            ok = ops is not None and args[0] == first and args[2] == f"[{second}]"
+            if not ok and ops is not None and args[0] == second and args[2] == f"[{first}]":
                 # swapped: needs the purity guard on every path
                 g = g or CFG(fn)
                 nodes = [nd for nd in g.nodes if nd.ast is r]
 
                 def pure_guard(a, b, lab):
-                    t = P.un(a.ast) if a.kind == "test" else ""
-                    return a.kind == "test" and lab is True and "isinstance(arg, (ast.Constant, ast.Name))" in t.replace("ast.Name, ast.Constant", "ast.Constant, ast.Name") and "node.args" in t
+                    if a.kind != "test" or lab is not True:
+                        return False
+                    t = a.ast
+                    # all(isinstance(<x>, (ast.Constant, ast.Name)) for <x> in node.args)
+                    for c in ast.walk(t):
+                        if isinstance(c, ast.Call) and P.un(c.func) == "all" and c.args and isinstance(c.args[0], ast.GeneratorExp):
+                            ge = c.args[0]
+                            if len(ge.generators) == 1 and P.un(ge.generators[0].iter) == "node.args" and isinstance(ge.elt, ast.Call) and P.un(ge.elt.func) == "isinstance" \
+                                    and sorted(P.un(x) for x in getattr(ge.elt.args[1], "elts", [])) == ["ast.Constant", "ast.Name"] and P.un(ge.elt.args[0]) == P.un(ge.generators[0].target):
+                                return True
+                    return False
+
+                def impure_exit(a, b, lab):
+                    # the same guard written as an early exit: `if not all(...): return node`
+                    return False
 
                 ok = bool(nodes) and all(g.edge_dominated(nd, pure_guard) for nd in nodes)
+                if not ok and nodes:
+                    # early-return form: every path to the return passes the *false* edge of `not all(...)`
+                    def pure_guard_neg(a, b, lab):
+                        if a.kind != "test" or lab is not False:
+                            return False
+                        t = a.ast
+                        return isinstance(t, ast.UnaryOp) and isinstance(t.op, ast.Not) and pure_guard(type("N", (), {"kind": "test", "ast": t.operand})(), b, True)
+                    ok = all(g.edge_dominated(nd, pure_guard_neg) for nd in nodes)
                 ctx.ob("C15.R2", inst + " (swapped, guarded)", OPT, r.lineno, ok,
                        "" if ok else "the operands are swapped (`b in a` evaluates b first) without a guard that both are names/constants: the order of effects changes",
                        witness="(operator/contains (t [1]) (t 1)) evaluated (t 1) first")
                 continue
         elif cls == "Subscript":
-            ok = kw.get("value") == "target" and kw.get("slice") == "index"
+            ok = ops is not None and kw.get("value") == first and kw.get("slice") == second
         else:
             ok = True
-        ctx.ob("C15.R2", inst, OPT, r.lineno, ok, "" if ok else f"`{P.un(v)}` does not keep the call's operand order")
-    # unpacking order
+        ctx.ob("C15.R2", inst, OPT, r.lineno, ok, "" if ok else f"`{P.un(v)}` does not keep the call's operand order (operands unpacked as {ops})")
+    # ... and the operands are used as they are: an operand that is rebound between the unpacking and
+    # the node built from it is a second, unreviewed rewrite (of the operand) hidden inside the first
     for a in ast.walk(fn):
         if isinstance(a, ast.Assign) and P.un(a.value) == "node.args" and isinstance(a.targets[0], ast.Tuple):
             names = [P.un(e) for e in a.targets[0].elts]
-            ok = names in (["arg1", "arg2"], ["target", "index"])
-            ctx.ob("C15.R2", f"{OPT}::{P.un(a)}", OPT, a.lineno, ok, "" if ok else "operands are unpacked in a different order")
-            # ... and used as they are: an operand that is rebound between the unpacking and the node
-            # built from it is a second, unreviewed rewrite (of the operand) hidden inside the first
             blk = P.block_of(a) or []
             rebound = [s for s in blk if s is not a for x in ast.walk(s) if isinstance(x, (ast.Assign, ast.AugAssign, ast.AnnAssign, ast.NamedExpr))
                        for t in (P.store_targets(x) if not isinstance(x, ast.NamedExpr) else [x.target]) for n in ast.walk(t) if isinstance(n, ast.Name) and n.id in names]
             guard = next((P.un(x.test) for x in P.ancestors(a) if isinstance(x, ast.If)), "top")
-            ctx.ob("C15.R2", f"{OPT}::operands {names} reach the rewritten node unchanged (under `{guard[:50]}`)", OPT, a.lineno, not rebound,
+            ctx.ob("C15.R2", f"{OPT}::the unpacked operands reach the rewritten node unchanged (under `{guard[:50]}`)", OPT, a.lineno, not rebound,
                    "" if not rebound else f"`{P.un(rebound[0])[:70]}` rebinds an operand before the rewritten node is built: the operand expression itself is rewritten, which no table of this checker has reviewed",
                    witness="(operator/getitem v (python/slice n)) must stay v[slice(n)] == v[:n]")
 
